@@ -124,6 +124,11 @@ def oracle_c02(rr: Any, spec: Dict[str, Any]) -> "tuple[List[Violation], int, in
             s["how"] = e.get("how")
             if e.get("exc") == "GeneratorExit" and s.get("thread"):
                 s["genexit_sync"] = True
+        elif k == "dep_raise":
+            # a dependency of the task failed while it was resolved: the execution is over (as a failure) without the
+            # function ever being called
+            s["ended"] = True
+            s["how"] = s["how"] or "raise"
         elif k == "set_enter":
             s["set_enter"] = True
         elif k in ("set_exit", "set_fail"):
